@@ -509,6 +509,7 @@ func checkC15(p *Prog, res *Result, tier string) {
 	res.rule("C15-R2", "the lock's timestamp field is fed only by GetTimestampOracle and is what Describe() prints", 4)
 	res.rule("C15-R3", "TSO.Commit raises the dealt counter monotonically (C02-R1)", 5)
 	res.rule("C15-R4", "nobody else resets the counters (C02-R3)", 3)
+	res.rule("C15-R7", "the in-process engine's timestamp oracle reads the wall clock on every call, so that it is ahead of every revision a leader can have handed out (failed writes consume revisions without committing anything)", 1)
 	res.rule("C15-R6", "the TiKV adapter's oracle asks PD for a fresh timestamp, never a cached one (C11-R6)", 1)
 	res.rule("C15-R5", "a failed read of the engine timestamp fails the lock operation (its error is returned), so that the lock never reports success with a stale or zero timestamp cached", 2)
 
@@ -666,6 +667,38 @@ func checkC15(p *Prog, res *Result, tier string) {
 		checkOracleAPI(p, r, sub)
 		for _, o := range sub.Obls {
 			res.add("C15-R6", o.Rule+" "+o.Construct, o.Status, o.Pos, o.Detail)
+		}
+	}
+	// ---- R7: the in-process engine's oracle is the wall clock ----
+	if impl := p.implIn(r.KVGetTSO, "pkg/storage/memkv"); impl != nil {
+		construct := funcName(impl) + ": the timestamp is read from the wall clock"
+		okAll, n := true, 0
+		for _, b := range impl.Blocks {
+			ret, ok := b.Instrs[len(b.Instrs)-1].(*ssa.Return)
+			if !ok || b.Comment == "recover" {
+				continue
+			}
+			for _, v := range allCellValuesOpt(p, ret.Results[0], false) {
+				if isZeroConst(v) && len(ret.Results) > 1 && !isNilConst(resolve(ret.Results[1])) {
+					continue // (0, err)
+				}
+				n++
+				if !derivesFromCallArgs(p, v, func(x ssa.Value) bool {
+					c, ok := x.(*ssa.Call)
+					if !ok {
+						return false
+					}
+					sc := c.Common().StaticCallee()
+					return sc != nil && sc.Pkg != nil && sc.Pkg.Pkg.Path() == "time" && sc.Name() == "Now" && c.Parent() == impl
+				}) {
+					okAll = false
+				}
+			}
+		}
+		if okAll && n > 0 {
+			res.ok("C15-R7", construct, p.pos(impl.Pos()), "every returned timestamp derives from time.Now() read in the call")
+		} else {
+			res.bad("C15-R7", construct, p.pos(impl.Pos()), "the in-process engine's oracle does not read the wall clock (a counter advanced by successful commits?): revisions are consumed by failed writes as well, so the allocator of a busy leader outruns such a counter and the next leader, which starts from the oracle, hands out revisions that are already in the store")
 		}
 	}
 
